@@ -15,6 +15,13 @@
 //	              w    = 0: this wallet's public key hash, k>0: another hash; act = proposed action.
 //	              The proposal of message number i (1-based) carries the tag i (noop: no payload, tag 0).
 //	After the last message has been processed the context is cancelled (end of the active phase).
+//	fcoord <seats> <self> <block> <leader> <allowed> <events>
+//	    the follower side of coordinate() itself, with a scripted block clock. events = comma list of
+//	    messages (as above; tag = position in the event list) and clock advances `@<block>`.
+//	    leader / allowed are what getLeader / getActionsChecklist(+noop) return for the window (taken
+//	    from the real code when the line is generated: they are C22's subject and inputs here).
+//	    obs: cancel=<block coordinate() asked the clock to end the routine's context at>
+//	         leader=<op> prop=... faults=...   |  cancel=<block> err   (routine failed: leader idle)
 //
 // Obs: prop=<act>:<tag>|- faults=<I<op>|M<op>|L<op>,...> err=<0|1>
 package main
@@ -88,15 +95,78 @@ type fakeChain struct {
 
 func (fc *fakeChain) Signing() chain.Signing { return fc.signing }
 
+func (fc *fakeChain) GetBlockHashByNumber(n uint64) ([32]byte, error) {
+	var h [32]byte
+	for i := range h {
+		h[i] = byte(0xc2 + i)
+	}
+	binary.BigEndian.PutUint64(h[24:], n*0x9E3779B97F4A7C15)
+	return h, nil
+}
+
+// blockClock is a manually driven chain clock; it records which blocks were waited for.
+type blockClock struct {
+	mu      sync.Mutex
+	cur     uint64
+	changed chan struct{}
+	asked   []uint64
+	askedCh chan struct{}
+}
+
+func newBlockClock(cur uint64) *blockClock {
+	return &blockClock{cur: cur, changed: make(chan struct{}), askedCh: make(chan struct{}, 16)}
+}
+
+func (c *blockClock) advance(b uint64) {
+	c.mu.Lock()
+	defer c.mu.Unlock()
+	if b > c.cur {
+		c.cur = b
+		close(c.changed)
+		c.changed = make(chan struct{})
+	}
+}
+
+func (c *blockClock) wait(ctx context.Context, b uint64) error {
+	c.mu.Lock()
+	c.asked = append(c.asked, b)
+	c.mu.Unlock()
+	select {
+	case c.askedCh <- struct{}{}:
+	default:
+	}
+	for {
+		c.mu.Lock()
+		cur, changed := c.cur, c.changed
+		c.mu.Unlock()
+		if cur >= b {
+			return nil
+		}
+		select {
+		case <-changed:
+		case <-ctx.Done():
+			return nil
+		}
+	}
+}
+
+func (c *blockClock) askedList() []uint64 {
+	c.mu.Lock()
+	defer c.mu.Unlock()
+	return append([]uint64(nil), c.asked...)
+}
+
 // spyChannel wraps the real pkg/net/local channel of the follower: it tells the harness when
 // the handler is registered and when the follower loop *starts processing* the sentinel
 // (Payload() is the first thing the loop calls on a message), i.e. when every earlier
 // message has been fully processed. It changes neither content nor order of delivery.
 type spyState struct {
-	nonce      uint64
+	nonce      uint64 // the default end-of-history sentinel
 	registered chan struct{}
 	seen       chan struct{}
 	once       sync.Once
+	mu         sync.Mutex
+	extra      map[uint64]chan struct{} // further sync points
 }
 
 type spyChannel struct {
@@ -110,11 +180,22 @@ func (s *spyChannel) arm() *spyState {
 		nonce:      atomic.AddUint64(&nonceCtr, 1),
 		registered: make(chan struct{}),
 		seen:       make(chan struct{}),
+		extra:      map[uint64]chan struct{}{},
 	}
 	s.mu.Lock()
 	s.cur = st
 	s.mu.Unlock()
 	return st
+}
+
+// syncPoint returns a fresh nonce and the channel closed when the loop reaches its message.
+func (st *spyState) syncPoint() (uint64, chan struct{}) {
+	n := atomic.AddUint64(&nonceCtr, 1)
+	ch := make(chan struct{})
+	st.mu.Lock()
+	st.extra[n] = ch
+	st.mu.Unlock()
+	return n, ch
 }
 
 type spyMsg struct {
@@ -124,8 +205,17 @@ type spyMsg struct {
 
 func (m *spyMsg) Payload() interface{} {
 	p := m.Message.Payload()
-	if o, ok := p.(*otherMsg); ok && o.Nonce == m.st.nonce {
-		m.st.once.Do(func() { close(m.st.seen) })
+	if o, ok := p.(*otherMsg); ok && o.Nonce != 0 {
+		if o.Nonce == m.st.nonce {
+			m.st.once.Do(func() { close(m.st.seen) })
+		} else {
+			m.st.mu.Lock()
+			if ch, ok := m.st.extra[o.Nonce]; ok {
+				close(ch)
+				delete(m.st.extra, o.Nonce)
+			}
+			m.st.mu.Unlock()
+		}
 	}
 	return p
 }
@@ -420,6 +510,8 @@ func exec(op string) (string, string) {
 			tag = "race+" + tag
 		}
 		return obs, tag
+	case f[0] == "fcoord" && len(f) == 7:
+		return execCoord(f)
 	case f[0] == "fseq" && len(f) == 5:
 		seatIDs := hx.ParseInts(f[1])
 		self := hx.Atoi(f[2])
@@ -449,6 +541,182 @@ func exec(op string) (string, string) {
 		return strings.Join(out, " / "), "fseq+" + strings.Join(tags, "+")
 	}
 	return "bad-op", "bad"
+}
+
+type event struct {
+	clock bool
+	block uint64
+	m     msg
+}
+
+func parseEvents(s string) ([]event, bool) {
+	var out []event
+	for _, t := range hx.SplitList(s) {
+		if strings.HasPrefix(t, "@") {
+			out = append(out, event{clock: true, block: hx.AtoU64(t[1:])})
+			continue
+		}
+		ms, ok := parseMsgs(t)
+		if !ok || len(ms) != 1 {
+			return nil, false
+		}
+		out = append(out, event{m: ms[0]})
+	}
+	return out, len(out) <= 200
+}
+
+func coordSetup(seatIDs []int, self int, clk *blockClock) (*tbtc.VerifC24Executor, *spyChannel, bool) {
+	var seats []chain.Address
+	for _, s := range seatIDs {
+		if s < 0 || s >= pool {
+			return nil, nil, false
+		}
+		seats = append(seats, opAddr[s])
+	}
+	spy := &spyChannel{BroadcastChannel: opChan[self]}
+	ex := tbtc.VerifC24NewCoordinatingExecutor(
+		&fakeChain{signing: signing},
+		walletPK,
+		seats,
+		opAddr[self],
+		nil, // the follower side never generates proposals
+		spy,
+		group.NewMembershipValidator(quietLogger{}, seats, signing),
+		clk.wait,
+	)
+	return ex, spy, true
+}
+
+func execCoord(f []string) (string, string) {
+	seatIDs := hx.ParseInts(f[1])
+	self := hx.Atoi(f[2])
+	block := hx.AtoU64(f[3])
+	events, ok := parseEvents(f[6])
+	if !ok || self < 0 || self >= pool || len(seatIDs) == 0 || len(seatIDs) > 255 {
+		return "bad-op", "bad"
+	}
+	clk := newBlockClock(block)
+	ex, spy, ok := coordSetup(seatIDs, self, clk)
+	if !ok {
+		return "bad-op", "bad"
+	}
+	realLeader, _, err := ex.LeaderAndChecklist(block)
+	if err != nil || realLeader == opAddr[self] {
+		return "bad-op", "bad" // the leader side is not the subject here
+	}
+	pkh := ex.WalletPublicKeyHash()
+	st := spy.arm()
+	resCh := make(chan result, 1)
+	go func() {
+		defer func() {
+			if e := recover(); e != nil {
+				resCh <- result{panicked: e}
+			}
+		}()
+		leader, p, faults, err := ex.Coordinate(block)
+		if err != nil {
+			resCh <- result{obs: "err"}
+			return
+		}
+		l := "?"
+		if op, ok := addrToOp[leader]; ok {
+			l = fmt.Sprint(op)
+		}
+		resCh <- result{obs: fmt.Sprintf("leader=%s prop=%s faults=%s", l, showProposal(p), showFaults(faults))}
+	}()
+	var res *result
+	defer clk.advance(^uint64(0)) // release every goroutine still waiting for a block
+	wait := func(ch <-chan struct{}) bool { // false: hang
+		if res != nil {
+			return true
+		}
+		select {
+		case <-ch:
+		case r := <-resCh:
+			res = &r
+		case <-time.After(15 * time.Second):
+			return false
+		}
+		return true
+	}
+	if !wait(st.registered) {
+		return "HANG before-recv", "hang"
+	}
+	if res == nil {
+		// the block coordinate() ends the routine's context at has been asked of the clock
+		asked := make(chan struct{})
+		go func() { <-clk.askedCh; close(asked) }()
+		if !wait(asked) {
+			return "HANG no-cancel-block", "hang"
+		}
+	}
+	syncLoop := func() bool {
+		if res != nil {
+			return true
+		}
+		n, ch := st.syncPoint()
+		if opChan[(self+1)%pool].Send(deadCtx, &otherMsg{Nonce: n}) != nil {
+			return false
+		}
+		return wait(ch)
+	}
+	passive := false
+	for i, ev := range events {
+		if ev.clock {
+			if !syncLoop() {
+				return "HANG sync", "hang"
+			}
+			clk.advance(ev.block)
+			if ev.block >= block+uint64(tbtc.VerifC24ActivePhaseDurationBlocks) {
+				passive = true
+			}
+			// if the context's end block has been reached the routine must return
+			for _, a := range clk.askedList() {
+				if res == nil && ev.block >= a {
+					never := make(chan struct{})
+					if !wait(never) {
+						return "HANG after-cancel-block", "hang"
+					}
+				}
+			}
+			continue
+		}
+		m := ev.m
+		var tm net.TaggedMarshaler
+		if m.kind == 1 {
+			tm = &otherMsg{Nonce: 0}
+		} else {
+			h := pkh
+			if m.w != 0 {
+				h[19] ^= byte(m.w)
+			}
+			tm = tbtc.VerifC24NewCoordinationMessage(group.MemberIndex(m.sid), m.blk, h, proposalFor(m.act, i+1))
+		}
+		if opChan[m.net].Send(deadCtx, tm) != nil {
+			return "err:send", "bad"
+		}
+	}
+	if !syncLoop() {
+		return "HANG sync", "hang"
+	}
+	clk.advance(^uint64(0))
+	never := make(chan struct{})
+	if !wait(never) || res == nil {
+		return "HANG end", "hang"
+	}
+	if res.panicked != nil {
+		panic(res.panicked)
+	}
+	tag := "fcoord"
+	if passive {
+		tag += "+passivephase"
+	}
+	if strings.Contains(res.obs, "prop=") {
+		tag += "+accept"
+	} else {
+		tag += "+idle"
+	}
+	return fmt.Sprintf("cancel=%s %s", hx.JoinInts(clk.askedList()), res.obs), tag
 }
 
 func tagOf(obs string, msgs []msg, block uint64) string {
@@ -621,6 +889,64 @@ func (g groupGen) genMsgs(r *hx.Rng, self, leader int, block uint64, allowed []i
 	return ms
 }
 
+// genCoord: the follower side of coordinate() with clock advances; the leader and the checklist
+// of the window come from the real getLeader / getActionsChecklist.
+func genCoord(r *hx.Rng, g groupGen) (string, bool) {
+	initOnce.Do(setup)
+	block := uint64(r.Range(1, 50)) * 900
+	ex, _, ok := coordSetup(g.seatIDs, g.seatIDs[0], newBlockClock(block))
+	if !ok {
+		return "", false
+	}
+	leaderAddr, checklist, err := ex.LeaderAndChecklist(block)
+	if err != nil {
+		return "", false
+	}
+	leader := addrToOp[leaderAddr]
+	self := -1
+	for _, s := range g.seatIDs {
+		if s != leader {
+			self = s
+		}
+	}
+	if self < 0 {
+		return "", false
+	}
+	var allowed []int
+	for _, a := range checklist {
+		allowed = append(allowed, int(a))
+	}
+	allowed = append(allowed, int(tbtc.ActionNoop))
+	active := uint64(tbtc.VerifC24ActivePhaseDurationBlocks)
+	total := uint64(tbtc.VerifC24DurationBlocks)
+	leaderID := seatsOf(g.seatIDs, leader)[0]
+	valid := func() string { return fmt.Sprintf("0:%d:%d:%d:0:%d", leader, leaderID, block, allowed[r.Intn(len(allowed))]) }
+	var ev []string
+	ev = append(ev, g.genMsgs(r, self, leader, block, allowed, false)...)
+	if len(ev) > 6 {
+		ev = ev[:6]
+	}
+	if r.Chance(1, 2) {
+		ev = append(ev, fmt.Sprintf("@%d", block+uint64(r.Range(1, int(active)-1))))
+		ev = append(ev, g.genMsgs(r, self, leader, block, allowed, false)...)
+	}
+	if r.Chance(1, 5) {
+		ev = append(ev, valid()) // leader speaks in the active phase
+	}
+	// end of the active phase: exactly at the boundary or somewhere in the passive phase
+	ev = append(ev, fmt.Sprintf("@%d", block+active+uint64(hx.Pick(r, []int{0, 0, 1, 5, int(total-active) - 1}))))
+	ev = append(ev, valid()) // a perfectly valid leader proposal, but in the passive phase
+	if r.Bool() {
+		ev = append(ev, g.genMsgs(r, self, leader, block, allowed, false)...)
+	}
+	if r.Bool() {
+		ev = append(ev, fmt.Sprintf("@%d", block+total))
+		ev = append(ev, valid())
+	}
+	return fmt.Sprintf("fcoord %s %d %d %d %s %s", hx.JoinInts(g.seatIDs), self, block, leader,
+		hx.JoinInts(allowed), hx.JoinStrs(ev)), true
+}
+
 func gen(r *hx.Rng, n int, tier string) []string {
 	var ops []string
 	for i := 0; i < n; i++ {
@@ -631,6 +957,12 @@ func gen(r *hx.Rng, n int, tier string) []string {
 		block := uint64(r.Range(1, 50)) * 900
 		allowed := genAllowed(r)
 		switch k := r.Intn(40); {
+		case k >= 37:
+			if op, ok := genCoord(r, g); ok {
+				ops = append(ops, op)
+				continue
+			}
+			fallthrough
 		case k < 5: // consecutive windows on one long-lived executor
 			nw := r.Range(2, 5)
 			var ws []string
@@ -665,6 +997,8 @@ func facts() []string {
 		fmt.Sprintf("nat faultLeaderImpersonation %d", tbtc.FaultLeaderImpersonation),
 		fmt.Sprintf("nat maxMemberIndex %d", group.MaxMemberIndex),
 		fmt.Sprintf("nat receiveBuffer %d", tbtc.VerifC24CoordinationMessageReceiveBuffer),
+		fmt.Sprintf("nat activePhaseDurationBlocks %d", uint64(tbtc.VerifC24ActivePhaseDurationBlocks)),
+		fmt.Sprintf("nat durationBlocks %d", uint64(tbtc.VerifC24DurationBlocks)),
 	}
 }
 
